@@ -536,6 +536,8 @@ class Bits:
                 raise bitstring.CreationError(f"The offset of {offset} bits is negative.")
             if length is not None and length < 0:
                 raise bitstring.CreationError(f"The length of {length} bits is negative.")
+            if offset > s.seek(0, 2) * 8:
+                raise bitstring.CreationError(f"The offset of {offset} bits is greater than the BytesIO length ({s.seek(0, 2) * 8} bits).")
             if length is None:
                 length = s.seek(0, 2) * 8 - offset
             byteoffset, offset = divmod(offset, 8)
@@ -573,9 +575,9 @@ class Bits:
             else:
                 # If offset is given then always read into memory.
                 temp = BitStore.frombuffer(m)
+                if offset > len(temp):
+                    raise bitstring.CreationError(f"The offset of {offset} bits is greater than the file length ({len(temp)} bits).")
                 if length is None:
-                    if offset > len(temp):
-                        raise bitstring.CreationError(f"The offset of {offset} bits is greater than the file length ({len(temp)} bits).")
                     self._bitstore = temp.getslice_msb0(offset, None)
                 else:
                     self._bitstore = temp.getslice_msb0(offset, offset + length)
@@ -646,6 +648,8 @@ class Bits:
             raise bitstring.CreationError(f"The offset of {offset} bits is negative.")
         if length is not None and length < 0:
             raise bitstring.CreationError(f"The length of {length} bits is negative.")
+        if offset > len(data) * 8:
+            raise bitstring.CreationError(f"The offset of {offset} bits is greater than the data length ({len(data) * 8} bits).")
         if length is None:
             # Use to the end of the data
             length = len(data) * 8 - offset
